@@ -83,7 +83,8 @@ Section SolverC.
   (* the C09 law for an objective, in the form the optimiser uses it: localized at sequence s to the
      window [a,b) and re-initialised on the local problem *)
   Definition faithful (ob : spec) : Prop :=
-    forall a b s s', good space n s -> good space n s' -> agree_out a b s s' ->
+    forall a b s s', 0 <= a -> a < b -> b <= n ->
+      good space n s -> good space n s' -> agree_out a b s s' ->
       match localize ob (mkLoc a b 0) true s with
       | LSome ob' => let ob'' := reinit true ob' s in
                      boost ob'' = boost ob /\
